@@ -192,6 +192,38 @@ theorem group_content (c : Cfg) (hc : c.posix = false) (fs1 fs' : FS) (hi : FS.I
     readText c fs' groupPath = writeGroups all :=
   writeBack_readText c hc fs1 fs' hi groupPath _ (writeGroups_ne_nil all hne) hnl h
 
+theorem wf_groupsPart (c : Cfg) (fs : FS) (gs : List GroupCfg) (h : WF fs) : WF (groupsPart c fs gs).1 := by
+  unfold groupsPart
+  split
+  · exact h
+  · have h1 := wf_readOrCreate c fs groupPath h
+    split
+    · rename_i heq; simp only [heq] at h1; exact h1
+    · rename_i fs1 t heq
+      simp only [heq] at h1
+      split
+      · exact h1
+      · exact wf_writeBack c fs1 groupPath _ h1
+
+/-- **accounts, end to end**: from a well-formed tree, a successful `mutateAccounts` ends with the
+write-back of `etc/passwd` from a well-formed state; the run-as it reports is resolved against
+*old ++ configured*; and (when `etc/passwd` itself is not a symbolic link) the file then reads
+back as exactly the rendering of the old entries followed by the configured ones. -/
+theorem accounts_passwd_final (c : Cfg) (hc : c.posix = false) (fs fs' : FS) (cfg : AccCfg) (r : Text)
+    (hi : FS.Inv fs) (hb : DirBit fs) (h : mutateAccounts c fs cfg = (fs', none, r)) :
+    ∃ fs2 oldU, FS.Inv fs2 ∧ DirBit fs2 ∧
+      writeBack c fs2 passwdPath (writeUsers (oldU ++ cfg.users.map specUser)) = (fs', none) ∧
+      r = resolveRunAs (oldU ++ cfg.users.map specUser) cfg.runAs ∧
+      (oldU ++ cfg.users.map specUser ≠ [] →
+        (∀ pi a, getNode c fs2 (dir passwdPath) = .ok pi → fs2.lookup pi (base passwdPath) = some a →
+          (fs2.node a).isSymlink = false) →
+        readText c fs' passwdPath = writeUsers (oldU ++ cfg.users.map specUser)) := by
+  obtain ⟨fsg, fs1, t, oldU, fs2, hg, _, h1, _, h3, h4, h5⟩ := accounts_append c fs fs' cfg r h
+  have wg : WF fsg := by have := wf_groupsPart c fs cfg.groups ⟨hi, hb⟩; rw [hg] at this; exact this
+  have w1 : WF fs1 := by have := wf_readOrCreate c fsg passwdPath wg; rw [h1] at this; exact this
+  have w2 : WF fs2 := by have := wf_seqM_home c (oldU ++ cfg.users.map specUser) fs1 w1; rw [h3] at this; exact this
+  exact ⟨fs2, oldU, w2.1, w2.2, h4, h5, fun hne hnl => passwd_content c hc fs2 fs' w2.1 _ hne hnl h4⟩
+
 /-! ## home directories -/
 
 /-- `/dev/null` homes are skipped -/
